@@ -107,6 +107,18 @@ def producerByTable (sites : List (String × Prov)) (pts : List V3) (e f c : Lis
 (the readers themselves belong to C04) -/
 def readFile (s : State) (vs : List V3) (e f c : List (List Nat)) : State := newMesh s vs e f c
 
+/-- what `_prepare_vertices` stores back at index `iv` (round 8): a VIEW of the object already stored there (`Vec(x)` of an array:
+same memory — the model's cell is the same) or a NEW array (`np.pad`, `astype`: padded / converted values; the model's cells already
+hold three rationals, so the coordinates are the same) -/
+inductive VRef where
+  | view
+  | new
+  deriving DecidableEq, Repr
+
+def storeVRef (s : State) (mi i : Nat) : VRef → State
+  | .view => s
+  | .new => setVertex s mi i (vertexAt s mi i)
+
 /-! ### `copy`: the statement tables (round 5) -/
 
 /-- how the right-hand side of `copy_mesh.<path> = …` is obtained from `mesh.<path>` -/
